@@ -484,6 +484,34 @@ class Analysis:
             if r is not None:
                 return r
 
+        # ---- `?` plumbing on Option / Result values whose variant is known (path-exact after mirxf.treeify) ----
+        OPT, RES, CF = "core::option::Option", "core::result::Result", "core::ops::ControlFlow"
+
+        def adt(v, path):
+            return v if (v[0] == "A" and isinstance(v[1], tuple) and v[1][0] == "adt" and v[1][1] == path) else None
+        if fn == "core::result::Result::<T, E>::ok" and args:
+            r_ = adt(args[0], RES)
+            if r_ is not None:
+                return ("A", ("adt", OPT, 1), (r_[2][0],)) if r_[1][2] == 0 else ("A", ("adt", OPT, 0), ())
+        if fn == "core::result::Result::<T, E>::err" and args:
+            r_ = adt(args[0], RES)
+            if r_ is not None:
+                return ("A", ("adt", OPT, 1), (r_[2][0],)) if r_[1][2] == 1 else ("A", ("adt", OPT, 0), ())
+        if fn == "core::option::Option::<T>::ok_or" and args:
+            o_ = adt(args[0], OPT)
+            if o_ is not None:
+                return ("A", ("adt", RES, 0), (o_[2][0],)) if o_[1][2] == 1 else ("A", ("adt", RES, 1), (args[1],))
+        if res == "<core::option::Option<T> as core::ops::Try>::branch" and args:
+            o_ = adt(args[0], OPT)
+            if o_ is not None:
+                return ("A", ("adt", CF, 0), (o_[2][0],)) if o_[1][2] == 1 else ("A", ("adt", CF, 1), (("A", ("adt", OPT, 0), ()),))
+        if res == "<core::result::Result<T, E> as core::ops::Try>::branch" and args:
+            r_ = adt(args[0], RES)
+            if r_ is not None:
+                return ("A", ("adt", CF, 0), (r_[2][0],)) if r_[1][2] == 0 else ("A", ("adt", CF, 1), (("A", ("adt", RES, 1), (r_[2][0],)),))
+        if res.startswith("<core::option::Option<T> as core::ops::FromResidual<core::option::Option<core::convert::Infallible>>>::from_residual"):
+            return ("A", ("adt", OPT, 0), ())
+
         if fn in ("core::slice::<impl [T]>::len",):
             p = ptr()
             if p and p[3] is not None:
@@ -869,6 +897,9 @@ class Analysis:
             cs.mem = pre.mem
             dest_ty = self.place_ty(t["dest"])
             r = self.model_call(st, cs, dest_ty)
+            cs.modelled = r is not None
+            if cs.modelled and r[0] == "A" and cs.fn.startswith(("core::result::Result::<T, E>::", "core::option::Option::<T>::", "core::ops::Try::", "core::ops::FromResidual::")):
+                cs.no_effects = True  # value-level plumbing
             self.apply_call_effects(st, cs, site)
             if r is None:
                 r = self.init_value(("ret", bb), dest_ty, "ret")
